@@ -3,6 +3,8 @@ package rules
 import (
 	"fmt"
 	"go/token"
+	"sort"
+	"strings"
 
 	"golang.org/x/tools/go/ssa"
 
@@ -37,6 +39,7 @@ func checkC07(p *core.Program, r *core.Report) {
 	r.Rule("R3", "first match wins: matchCase walks recv.cases forward, returns inside the loop only for a truthy result with that case's CategoryUUID, and the error arm logs and continues")
 	r.Rule("R4", "no arbitrary choice: an empty exit fails the run; without a router the first exit is taken under len > 0; the random router's index derives only from random.Decimal, len(categories), Mul, IntPart")
 	r.Rule("R5", "Results.Save stores the result it is given on every path (the saved input/node/extra are those of the latest routing)")
+	r.Rule("R7", "timeout routing is chosen for the run the timeout was applied to: the condition under which the engine calls Router.RouteTimeout instead of Route traces back, through parameters and every call site, only to a type test of the resume handed to the resuming function (a parameter) or to the constant false — never to session state such as the sprint's current resume, which is still a timeout when a parent run is resumed later in the same sprint")
 	r.Assumption("each test function matches what its documentation says; localisation of arguments is C18")
 
 	rtc := p.Method("flows/routers", "baseRouter", "routeToCategory")
@@ -378,6 +381,7 @@ func checkC07(p *core.Program, r *core.Report) {
 	})
 	r.Check(!errArmReturns, "R3", "matchCase/error-arm-continues", p.Pos(mc.Pos()), "a test that returns an error is logged and the next case is tried", "a case whose test errors ends the matching: later cases are never tried")
 
+	c07R7(p, r)
 	// ------------------------------------------------------------------ R4 pickNodeExit and random
 	failOK := false
 	for _, cs := range core.Calls(e.pick, false) {
@@ -539,4 +543,104 @@ func c07SelectedByUUID(cat ssa.Value, want ssa.Value, depth int) bool {
 		}
 	}
 	return false
+}
+
+// ---------------------------------------------------------------------------------------------- R7
+
+func c07R7(p *core.Program, r *core.Report) {
+	n := 0
+	for _, cs := range p.CallsToName("flows.Router.RouteTimeout") {
+		if p.IsTestFile(cs.Pos()) || core.RelPkg(core.FuncPkgPath(cs.Caller)) != "flows/engine" {
+			continue
+		}
+		n++
+		var origins []string
+		bad := ""
+		seen := map[ssa.Value]bool{}
+		var trace func(v ssa.Value, depth int)
+		trace = func(v ssa.Value, depth int) {
+			v = core.StripConv(v)
+			if seen[v] || depth > 6 {
+				return
+			}
+			seen[v] = true
+			switch x := v.(type) {
+			case *ssa.Const:
+				origins = append(origins, "constant "+x.Value.String())
+				if x.Value.String() != "false" {
+					bad = "the constant " + x.Value.String()
+				}
+			case *ssa.Parameter:
+				f := x.Parent()
+				idx := -1
+				for i, fp := range f.Params {
+					if fp == x {
+						idx = i
+					}
+				}
+				sites := p.CallsTo(f)
+				if idx < 0 || len(sites) == 0 || f.Object() == nil || f.Object().Exported() {
+					bad = "parameter " + x.Name() + " of " + core.FuncName(f) + " (callers unknown)"
+					return
+				}
+				for _, site := range sites {
+					if p.IsTestFile(site.Pos()) {
+						continue
+					}
+					if idx < len(site.Common().Args) {
+						trace(site.Common().Args[idx], depth+1)
+					}
+				}
+			case *ssa.Extract:
+				ta, ok := x.Tuple.(*ssa.TypeAssert)
+				if !ok || !ta.CommaOk || x.Index != 1 {
+					bad = canonShort(v)
+					return
+				}
+				subject := core.StripConv(ta.X)
+				if prm, ok := subject.(*ssa.Parameter); ok {
+					origins = append(origins, fmt.Sprintf("type test of parameter %s of %s against %s", prm.Name(), core.FuncName(prm.Parent()), core.ShortType(ta.AssertedType)))
+				} else {
+					bad = "a type test of " + canonShort(subject) + ", which is not the resume handed to the function but state that outlives the run being resumed"
+				}
+			case *ssa.Phi:
+				for _, e := range x.Edges {
+					trace(e, depth+1)
+				}
+			case *ssa.UnOp:
+				if x.Op == token.NOT {
+					trace(x.X, depth+1)
+					return
+				}
+				bad = "a load of " + canonShort(x.X)
+			default:
+				bad = canonShort(v)
+			}
+		}
+		conds := core.ControllingConds(cs.Instr.Block())
+		decided := false
+		for _, ce := range conds {
+			// the node-has-a-router test is not the choice between Route and RouteTimeout
+			if bo, ok := ce.Cond.(*ssa.BinOp); ok && (core.IsNilConst(bo.X) || core.IsNilConst(bo.Y)) {
+				continue
+			}
+			decided = true
+			trace(ce.Cond, 0)
+		}
+		key := core.FuncName(cs.Caller) + "/RouteTimeout-choice"
+		if !decided {
+			r.Bad("R7", key, p.Pos(cs.Pos()), "RouteTimeout is called without a deciding condition")
+			continue
+		}
+		hasTest := false
+		for _, o := range origins {
+			if strings.HasPrefix(o, "type test") {
+				hasTest = true
+			}
+		}
+		sort.Strings(origins)
+		r.Check(bad == "" && hasTest, "R7", key, p.Pos(cs.Pos()), strings.Join(uniq(origins), "; "),
+			"whether a node is left by its timeout category depends on "+map[bool]string{true: bad, false: "no type test of the resume at all"}[bad != ""]+": a parent run resumed after its child completes in a sprint started by a timeout would also be routed by RouteTimeout (its own wait's timeout category, or a failed run when it has none)")
+	}
+	r.Require("route_timeout_sites", n, 1)
 }
